@@ -12,8 +12,9 @@ What is captured: for every module ``ufl*`` and every class defined in one (plus
 ``UFLType`` metaclass): attributes holding dict / list / set (contents restored in
 place), ``itertools.count`` (re-created at the captured position), and immutable scalars
 (rebound if changed); class attributes that did not exist at capture are deleted
-(``Counted._counter`` is created lazily on subclasses); functools single-dispatch and
-lru caches are cleared.
+(``Counted._counter`` is created lazily on subclasses); the rule registries of
+functools.singledispatchmethod attributes are put back (rules registered on UFL's own
+DAGTraverser rule-sets during a run), single-dispatch and lru caches are cleared.
 """
 
 import gc
@@ -69,7 +70,45 @@ def _attrs(o):
     return d
 
 
+def _dispatch_registry(sdm):
+    """The mutable registry dict of a functools.singledispatchmethod (``dispatcher.registry``
+    is a read-only proxy of it): the dict in the closure of ``dispatcher.register``."""
+    try:
+        for cell in sdm.dispatcher.register.__closure__ or ():
+            v = cell.cell_contents
+            if isinstance(v, dict) and object in v:
+                return v
+    except Exception:
+        pass
+    return None
+
+
+_REGISTRIES = []
+
+
+def _capture_registries():
+    import functools
+
+    del _REGISTRIES[:]
+    for kind, o in _owners():
+        if kind != "c":
+            continue
+        for v in vars(o).values():
+            if isinstance(v, functools.singledispatchmethod):
+                reg = _dispatch_registry(v)
+                if reg is not None:
+                    _REGISTRIES.append((v, reg, dict(reg)))
+
+
+def _restore_registries():
+    for sdm, reg, saved in _REGISTRIES:
+        if reg.keys() != saved.keys() or any(reg[k] is not saved[k] for k in saved):
+            reg.clear()
+            reg.update(saved)
+
+
 def capture():
+    _capture_registries()
     snap = []
     for kind, o in _owners():
         d = _attrs(o)
@@ -128,6 +167,7 @@ def restore(snap):
                 cur = d.get(k, _MISSING)
                 if cur is _MISSING or cur is not saved and cur != saved or type(cur) is not type(saved):
                     setattr(o, k, saved)
+    _restore_registries()
     _clear_function_caches()
     sys.setrecursionlimit(3000)
     gc.collect()
